@@ -1,25 +1,32 @@
 //! C15 — corrupt or hostile input is reported as an error, never a panic (abort, stack overflow, endless loop).
 //!
-//! See the `rule` text in `main` and `/verif/DESIGN.md` §6/§12 for what is explored. Every probe (one mutated
-//! input handed to one reader API) runs in a forked batch process under a panic hook, a CPU timer and an
-//! allocation monitor (`forkrun`, `alloc`).
+//! See the `rule` text in `main` and `/verif/DESIGN.md` §6/§12 for what is explored. Every probe (one input handed
+//! to one reader API / decoder / query) runs in a forked batch process under a panic hook, a CPU timer and an
+//! allocation monitor (`forkrun`, `alloc`); a probe that kills its process is attributed to exactly that probe.
 
 mod alloc;
+mod codecs;
 mod cramfmt;
+mod dbgfmt;
 mod forkrun;
 mod mutate;
+mod probe;
+mod queries;
+mod seeded;
 mod sigs;
+mod walkers;
 mod world;
 
 use std::sync::atomic::Ordering::Relaxed;
 
-use corpus::{Kind, Variant};
+use corpus::Variant;
 use serde_json::{Value, json};
-use vcore::{CaseOut, Ctx, Report, guard, rng::fnv1a, run_cases};
+use vcore::{CaseOut, Ctx, Report, Rng, guard, rng::fnv1a, run_cases};
 
 use crate::{
     forkrun::{Limits, OC_NAMES, ProbeOut},
     mutate::{Layer, SUBST_NAMES},
+    probe::{Probe, variant_name},
     world::World,
 };
 
@@ -31,76 +38,166 @@ enum Case {
     /// every item of the deterministic corpus, unmutated, every reader API: must read to END; measures the CPU
     /// time of the slowest valid input
     Baseline,
+    /// stored witnesses of the known findings (`findings/C15-witness-*.json`)
+    Witnesses,
     /// probes `from..to` of the deterministic enumeration of (item, layer)
     Det { item: usize, layer: Layer, from: usize, to: usize },
+    /// probes `from..to` of the deterministic enumeration of a valid codec stream
+    DetCodec { enc: usize, from: usize, to: usize },
+    /// seeded structured mutations of corpus files: mutations `from..from+n` of the stream, every reader API each
+    SeededRead { from: u64, n: usize },
+    SeededCodec { from: u64, n: usize },
+    SeededQuery { from: u64, n: usize },
 }
 
 fn case_json(w: &World, c: &Case) -> Value {
     match c {
         Case::Baseline => json!({"case": "baseline"}),
-        Case::Det { item, layer, from, to } => {
-            json!({"case": "det", "item": w.items[*item].item.name, "layer": layer.name(), "from": from, "to": to})
-        }
+        Case::Witnesses => json!({"case": "stored-witnesses"}),
+        Case::Det { item, layer, from, to } => json!({"case": "det", "item": w.items[*item].item.name, "layer": layer.name(), "from": from, "to": to}),
+        Case::DetCodec { enc, from, to } => json!({"case": "det-codec", "encoding": w.det_encodings[*enc].label, "from": from, "to": to}),
+        Case::SeededRead { from, n } => json!({"case": "seeded-read", "from": from, "n": n}),
+        Case::SeededCodec { from, n } => json!({"case": "seeded-codec", "from": from, "n": n}),
+        Case::SeededQuery { from, n } => json!({"case": "seeded-query", "from": from, "n": n}),
     }
 }
 
-pub fn variant_name(v: Variant) -> &'static str {
-    match v {
-        Variant::Primary => "primary",
-        Variant::Eager => "eager",
-        Variant::Indexer => "indexer",
+/// The readers a mutated file of this kind is handed to: every transcript variant, plus the Debug-formatting walk.
+fn apis(kind: corpus::Kind) -> Vec<Option<Variant>> {
+    let mut v: Vec<Option<Variant>> = kind.variants().iter().map(|v| Some(*v)).collect();
+    if dbgfmt::applies(kind) {
+        v.push(None);
+    }
+    v
+}
+
+fn api_name(a: Option<Variant>) -> &'static str {
+    a.map(variant_name).unwrap_or("debug-fmt")
+}
+
+fn read_api_probe(kind: corpus::Kind, api: Option<Variant>, bytes: Vec<u8>, side_item: &str) -> Probe {
+    match api {
+        Some(variant) => Probe::Read { kind, variant, bytes, side_item: side_item.to_string() },
+        None => Probe::DebugFmt { kind, bytes, side_item: side_item.to_string() },
     }
 }
 
-/// Classifies the end of a transcript.
-pub fn outcome_of_transcript(t: &[String]) -> usize {
-    match t.last().map(String::as_str) {
-        Some("END") => forkrun::OC_END,
-        Some("ERR:InvalidData") => forkrun::OC_ERR_INVALID_DATA,
-        Some("ERR:UnexpectedEof") => forkrun::OC_ERR_EOF,
-        Some("ERR:InvalidInput") => forkrun::OC_ERR_INVALID_INPUT,
-        _ => forkrun::OC_ERR_OTHER,
-    }
-}
-
-/// One reader run under the panic monitor.
-pub fn read_probe(kind: Kind, variant: Variant, bytes: &[u8], side: &corpus::Side) -> Result<usize, guard::PanicInfo> {
-    guard::catch(|| {
-        let t = corpus::transcript_read_variant(kind, variant, bytes, side, true, corpus::DEFAULT_CAP);
-        outcome_of_transcript(&t)
-    })
-}
+const STREAM_READ: u64 = 0x5EED_0001;
+const STREAM_CODEC: u64 = 0x5EED_0002;
+const STREAM_QUERY: u64 = 0x5EED_0003;
 
 fn gen_cases(ctx: &Ctx, w: &World) -> Vec<Case> {
-    let mut cases = vec![Case::Baseline];
+    let mut cases = vec![Case::Baseline, Case::Witnesses];
     let only = ctx.param("only");
-    for (i, it) in w.items.iter().enumerate() {
-        if let Some(o) = only {
-            if !it.item.name.contains(o) {
-                continue;
+    if ctx.param("nodet").is_none() {
+        for (i, it) in w.items.iter().enumerate() {
+            if let Some(o) = only {
+                if !it.item.name.contains(o) {
+                    continue;
+                }
+            }
+            for &layer in &it.layers {
+                let n = w.det_probe_count(i, layer);
+                let batch = w.det_batch_size(i, layer);
+                let mut from = 0;
+                while from < n {
+                    let to = (from + batch).min(n);
+                    cases.push(Case::Det { item: i, layer, from, to });
+                    from = to;
+                }
             }
         }
-        for &layer in &it.layers {
-            let n = w.det_probe_count(i, layer);
-            let batch = w.det_batch_size(i, layer);
-            let mut from = 0;
-            while from < n {
-                let to = (from + batch).min(n);
-                cases.push(Case::Det { item: i, layer, from, to });
-                from = to;
+        if only.is_none() || only == Some("codec") {
+            for (i, e) in w.det_encodings.iter().enumerate() {
+                let n = e.bytes.len() * 7;
+                let mut from = 0;
+                while from < n {
+                    let to = (from + 4000).min(n);
+                    cases.push(Case::DetCodec { enc: i, from, to });
+                    from = to;
+                }
+            }
+        }
+    }
+    if only.is_none() && ctx.param("noseeded").is_none() {
+        // `cases` = number of seeded mutated files (each goes to every reader API of its kind)
+        let n_read = ctx.budget("cases", 40_000, 1_500_000);
+        let n_codec = ctx.budget("codec_cases", 40_000, 1_000_000);
+        let n_query = ctx.budget("query_cases", 24_000, 600_000);
+        for (total, per, mk) in [
+            (n_read, 150usize, (|from, n| Case::SeededRead { from, n }) as fn(u64, usize) -> Case),
+            (n_codec, 3000, |from, n| Case::SeededCodec { from, n }),
+            (n_query, 400, |from, n| Case::SeededQuery { from, n }),
+        ] {
+            let mut from = 0u64;
+            while from < total {
+                let n = per.min((total - from) as usize);
+                cases.push(mk(from, n));
+                from += n as u64;
             }
         }
     }
     cases
 }
 
+/// The seeded mutated file number `m`: (item index in the seeded corpus, mutation).
+fn seeded_read(ctx: &Ctx, w: &World, m: u64) -> (usize, seeded::Mutated) {
+    let mut rng = Rng::new(ctx.seed, STREAM_READ, m);
+    // small items more often than large ones (cost), every kind equally often
+    let kinds: Vec<corpus::Kind> = {
+        let mut k: Vec<corpus::Kind> = w.seeded_items.iter().map(|p| p.item.kind).collect();
+        k.dedup();
+        k
+    };
+    let kind = *rng.pick(&kinds);
+    let of_kind: Vec<usize> = w.seeded_items.iter().enumerate().filter(|(_, p)| p.item.kind == kind && !p.item.bytes.is_empty()).map(|(i, _)| i).collect();
+    let weights: Vec<u64> = of_kind.iter().map(|&i| 1 + 200_000 / (w.seeded_items[i].item.bytes.len() as u64 + 1500)).collect();
+    let total: u64 = weights.iter().sum();
+    let mut x = rng.below(total.max(1));
+    let mut pick = of_kind[0];
+    for (k, &i) in of_kind.iter().enumerate() {
+        if x < weights[k] {
+            pick = i;
+            break;
+        }
+        x -= weights[k];
+    }
+    let mu = seeded::mutate_item(&w.seeded_items[pick], &mut rng);
+    (pick, mu)
+}
+
+fn panic_violation(p: &guard::PanicInfo, what: &str, wit: Value) -> (String, String, Value) {
+    let sig = sigs::site_sig(p);
+    let sig = if cfg!(debug_assertions) && !sigs::known_rel().contains(&format!("panic:{sig}")) { format!("profile=chk:panic:{sig}") } else { format!("panic:{sig}") };
+    (sig, format!("panic `{}` at {}:{} — {what}", p.message.chars().take(300).collect::<String>(), p.file, p.line), wit)
+}
+
 fn run_case(ctx: &Ctx, w: &World, idx: u64, c: &Case) -> CaseOut {
     let mut o = CaseOut::new();
-    let limits = Limits {
-        cpu_budget_s: ctx.param("cpu_budget_s").and_then(|s| s.parse().ok()).unwrap_or(if ctx.quick() { 20.0 } else { 60.0 }),
-        rlimit_as: ctx.budget("rlimit_as_mib", 6144, 6144) << 20,
-    };
+    let wall0 = std::time::Instant::now();
+    let budget = ctx.param("cpu_budget_s").and_then(|s| s.parse().ok()).unwrap_or(if ctx.quick() { 20.0 } else { 60.0 });
+    forkrun::PROBE_BUDGET_S.store(budget as u64, Relaxed);
+    let limits = Limits { cpu_budget_s: budget, rlimit_as: ctx.budget("rlimit_as_mib", 6144, 6144) << 20 };
     let errfile = ctx.work.join(format!("batch-{}-{idx}.stderr", std::process::id()));
+    // one generic runner: probe k of the case -> (slot, Probe, description)
+    let run_generic = |n: usize, slot_names: Vec<String>, prefix: String, make: &dyn Fn(usize) -> (usize, Probe, String)| -> (String, Vec<String>, forkrun::BatchOut) {
+        let run_one = |k: usize| -> ProbeOut {
+            // a panic of the generator itself is a harness defect: say so instead of dying
+            let made = std::panic::catch_unwind(std::panic::AssertUnwindSafe(|| make(k)));
+            let Ok((slot, p, what)) = made else {
+                return ProbeOut { slot: 46, oc: forkrun::OC_FATAL, violation: Some(("harness:probe-generator-panicked".into(), format!("the generator of probe {k} panicked (harness defect, not a C15 finding)"), Value::Null)) };
+            };
+            match p.run(w) {
+                Ok(oc) => ProbeOut { slot, oc, violation: None },
+                Err(pi) => ProbeOut { slot, oc: forkrun::OC_PANIC, violation: Some(panic_violation(&pi, &format!("{}; {what}", p.describe()), json!({"probe": p.to_json(20_000), "how": what}))) },
+            }
+        };
+        let describe = |k: usize| match std::panic::catch_unwind(std::panic::AssertUnwindSafe(|| make(k))) {
+            Ok((slot, p, what)) => (slot, p.entry(), format!("{}; {what}", p.describe()), json!({"probe": p.to_json(20_000), "how": what})),
+            Err(_) => (46, "harness".to_string(), format!("generator of probe {k} panicked"), Value::Null),
+        };
+        (prefix, slot_names, forkrun::run_batch(n, &limits, &errfile, &run_one, &describe))
+    };
     let (prefix, slot_names, batch): (String, Vec<String>, forkrun::BatchOut) = match c {
         Case::Baseline => {
             let n = w.items.len();
@@ -108,44 +205,76 @@ fn run_case(ctx: &Ctx, w: &World, idx: u64, c: &Case) -> CaseOut {
                 let it = &w.items[k];
                 let mut worst = forkrun::OC_END;
                 let mut violation = None;
-                for &v in it.item.kind.variants() {
+                for api in apis(it.item.kind) {
+                    let p = read_api_probe(it.item.kind, api, it.item.bytes.clone(), &it.item.name);
                     let t0 = guard::thread_cpu_s();
-                    let r = read_probe(it.item.kind, v, &it.item.bytes, &it.item.side);
+                    let r = p.run(w);
                     let dt = ((guard::thread_cpu_s() - t0) * 1e6) as u64;
                     if let Some(sh) = alloc::shared() {
                         sh.max_valid_cpu_us.fetch_max(dt, Relaxed);
+                        if api.is_none() {
+                            // slowest Debug call on a valid record
+                            let d = sh.max_debug_call_us.load(Relaxed);
+                            sh.max_valid_debug_call_us.fetch_max(d, Relaxed);
+                        }
                     }
                     match r {
                         Ok(oc) if oc == forkrun::OC_END => {}
                         Ok(oc) => {
                             worst = oc;
                             violation = Some((
-                                format!("harness:valid-item-not-read-to-end:{}:{}", it.item.kind.name(), variant_name(v)),
-                                format!("the unmutated corpus item {} does not read to END ({}); this is a corpus/harness problem, not a C15 finding", it.item.name, OC_NAMES[oc]),
+                                format!("harness:valid-item-not-read-to-end:{}:{}", it.item.kind.name(), api_name(api)),
+                                format!("the unmutated corpus item {} does not read to END ({}); a corpus/harness problem, not a C15 finding", it.item.name, OC_NAMES[oc]),
                                 Value::Null,
                             ));
                         }
-                        Err(p) => {
+                        Err(pi) => {
                             worst = forkrun::OC_PANIC;
-                            violation = Some((
-                                format!("panic:{}", sigs::site_sig(&p)),
-                                format!("reader panicked on the VALID corpus item {} ({}): {} at {}:{}", it.item.name, variant_name(v), p.message, p.file, p.line),
-                                json!({"item": it.item.name}),
-                            ));
+                            violation = Some(panic_violation(&pi, &format!("{} on the VALID corpus item {}", p.describe(), it.item.name), json!({"item": it.item.name})));
                         }
                     }
                 }
                 ProbeOut { slot: 0, oc: worst, violation }
             };
-            let describe = |k: usize| (0usize, format!("{}:valid-input", w.items[k].item.kind.name()), json!({"item": w.items[k].item.name}));
-            ("valid".to_string(), vec!["all-variants".to_string()], forkrun::run_batch(n, &limits, &errfile, &run_one, &describe))
+            let describe = |k: usize| (0usize, format!("{}:valid-input", w.items[k].item.kind.name()), format!("valid item {}", w.items[k].item.name), json!({"item": w.items[k].item.name}));
+            ("valid".to_string(), vec!["all-apis".to_string()], forkrun::run_batch(n, &limits, &errfile, &run_one, &describe))
+        }
+        Case::Witnesses => {
+            // slot 0 = the witness still fails with its stored signature, 1 = it fails differently, 2 = it no longer fails
+            let n = w.witnesses.len();
+            let run_one = |k: usize| -> ProbeOut {
+                let (name, sig, p) = &w.witnesses[k];
+                match p.run(w) {
+                    Ok(oc) => ProbeOut { slot: 2, oc, violation: None },
+                    Err(pi) => {
+                        let v = panic_violation(&pi, &format!("{}; stored witness {name}", p.describe()), json!({"probe": p.to_json(20_000), "how": format!("stored witness {name}")}));
+                        ProbeOut { slot: if &v.0 == sig { 0 } else { 1 }, oc: forkrun::OC_PANIC, violation: Some(v) }
+                    }
+                }
+            };
+            let describe = |k: usize| {
+                let (name, sig, p) = &w.witnesses[k];
+                // a witness of a hang / abort ends here: slot 0 if the stored signature says so
+                (if sig.starts_with("panic:") || sig.starts_with("profile=chk:panic:") { 1 } else { 0 }, p.entry(), format!("{}; stored witness {name}", p.describe()), json!({"probe": p.to_json(20_000), "how": format!("stored witness {name}")}))
+            };
+            (
+                "witness".to_string(),
+                vec!["reproduces-stored-signature".into(), "fails-with-another-signature".into(), "no-longer-fails".into()],
+                forkrun::run_batch(n, &limits, &errfile, &run_one, &describe),
+            )
         }
         Case::Det { item, layer, from, to } => {
             let it = &w.items[*item];
-            let variants = it.item.kind.variants();
-            let nv = variants.len();
+            let apis = apis(it.item.kind);
+            let nv = apis.len();
             let cache: std::cell::RefCell<(usize, Vec<u8>)> = std::cell::RefCell::new((usize::MAX, Vec::new()));
-            let run_one = |k: usize| -> ProbeOut {
+            let mut names = vec![];
+            for s in SUBST_NAMES {
+                for a in &apis {
+                    names.push(format!("{s}/{}", api_name(*a)));
+                }
+            }
+            run_generic(to - from, names, format!("{}|{}", it.item.kind.name(), layer.name()), &|k| {
                 let k = from + k;
                 let (m, vi) = (k / nv, k % nv);
                 let (pos, which) = w.det_mutation(*item, *layer, m);
@@ -156,46 +285,88 @@ fn run_case(ctx: &Ctx, w: &World, idx: u64, c: &Case) -> CaseOut {
                         c.0 = m;
                     }
                 }
-                let c = cache.borrow();
-                let slot = which * nv + vi;
-                match read_probe(it.item.kind, variants[vi], &c.1, &it.item.side) {
-                    Ok(oc) => ProbeOut { slot, oc, violation: None },
-                    Err(p) => ProbeOut {
-                        slot,
-                        oc: forkrun::OC_PANIC,
-                        violation: Some((
-                            format!("panic:{}", sigs::site_sig(&p)),
-                            format!(
-                                "{} reader ({}) panicked: {} at {}:{} — input = item {} at layer {}, byte {} {} (file of {} bytes)",
-                                it.item.kind.name(), variant_name(variants[vi]), p.message, p.file, p.line, it.item.name, layer.name(), pos, SUBST_NAMES[which], c.1.len()
-                            ),
-                            json!({"item": it.item.name, "layer": layer.name(), "pos": pos, "subst": SUBST_NAMES[which], "variant": variant_name(variants[vi]),
-                                   "bytes_hex": if c.1.len() <= 6000 { Value::String(vcore::report::hex(&c.1)) } else { Value::Null }}),
-                        )),
-                    },
-                }
-            };
-            let describe = |k: usize| {
-                let k = from + k;
-                let (m, vi) = (k / nv, k % nv);
-                let (pos, which) = w.det_mutation(*item, *layer, m);
+                let bytes = cache.borrow().1.clone();
                 (
                     which * nv + vi,
-                    format!("{}:{}", it.item.kind.name(), variant_name(variants[vi])),
-                    json!({"item": it.item.name, "layer": layer.name(), "pos": pos, "subst": SUBST_NAMES[which], "variant": variant_name(variants[vi])}),
+                    read_api_probe(it.item.kind, apis[vi], bytes, &it.item.name),
+                    format!("input = item {} at layer {}, byte {pos} {}", it.item.name, layer.name(), SUBST_NAMES[which]),
                 )
-            };
+            })
+        }
+        Case::DetCodec { enc, from, to } => {
+            let e = &w.det_encodings[*enc];
+            let names: Vec<String> = SUBST_NAMES.iter().map(|s| s.to_string()).collect();
+            run_generic(to - from, names, format!("codec:{}|stream", codecs::CODECS[e.codec]), &|k| {
+                let k = from + k;
+                let (pos, which) = (k / 7, k % 7);
+                let mut b = e.bytes.clone();
+                if which == 6 {
+                    b.truncate(pos);
+                } else {
+                    b[pos] = mutate::subst(b[pos], which);
+                }
+                (which, Probe::Codec { codec: e.codec, bytes: b, size: e.size }, format!("input = valid stream {} with byte {pos} {}", e.label, SUBST_NAMES[which]))
+            })
+        }
+        Case::SeededRead { from, n } => {
+            // probe k -> mutation from + k / MAXV, api (k % MAXV) (probes beyond the kind's APIs are skipped cheaply)
+            const MAXV: usize = 4;
+            let cache: std::cell::RefCell<(u64, usize, Option<seeded::Mutated>)> = std::cell::RefCell::new((u64::MAX, 0, None));
+            let names: Vec<String> = seeded::CLASSES.iter().map(|s| s.to_string()).collect();
+            run_generic(n * MAXV, names, "seeded-read".into(), &|k| {
+                let m = from + (k / MAXV) as u64;
+                let vi = k % MAXV;
+                {
+                    let mut c = cache.borrow_mut();
+                    if c.0 != m {
+                        let (i, mu) = seeded_read(ctx, w, m);
+                        *c = (m, i, Some(mu));
+                    }
+                }
+                let c = cache.borrow();
+                let it = &w.seeded_items[c.1];
+                let mu = c.2.as_ref().unwrap();
+                let apis = apis(it.item.kind);
+                if vi >= apis.len() {
+                    return (47, Probe::Codec { codec: 8, bytes: vec![], size: 0 }, "padding (kind has fewer reader APIs)".into());
+                }
+                (
+                    mu.class,
+                    read_api_probe(it.item.kind, apis[vi], mu.bytes.clone(), &it.item.name),
+                    format!("input = item {} (corpus of seed {}) mutated: {} [{}]", it.item.name, ctx.seed, mu.desc, seeded::CLASSES[mu.class]),
+                )
+            })
+        }
+        Case::SeededCodec { from, n } => {
             let mut names = vec![];
-            for s in SUBST_NAMES {
-                for v in variants {
-                    names.push(format!("{s}/{}", variant_name(*v)));
+            for c in codecs::CODECS {
+                for i in codecs::INPUT_CLASSES {
+                    names.push(format!("{c}/{i}"));
                 }
             }
-            (format!("{}|{}", it.item.kind.name(), layer.name()), names, forkrun::run_batch(to - from, &limits, &errfile, &run_one, &describe))
+            run_generic(*n, names, "seeded-codec".into(), &|k| {
+                let mut rng = Rng::new(ctx.seed, STREAM_CODEC, from + k as u64);
+                let p = codecs::seeded_probe(&mut rng);
+                (p.codec * codecs::INPUT_CLASSES.len() + p.input_class, Probe::Codec { codec: p.codec, bytes: p.bytes, size: p.size }, p.desc)
+            })
+        }
+        Case::SeededQuery { from, n } => {
+            let names: Vec<String> = queries::TARGETS.iter().map(|s| s.to_string()).collect();
+            run_generic(*n, names, "seeded-query".into(), &|k| {
+                let mut rng = Rng::new(ctx.seed, STREAM_QUERY, from + k as u64);
+                match queries::seeded_probe(&mut rng, &w.data_infos) {
+                    Some(q) => (q.target(), Probe::Query(q), "constructed index / offsets against a valid data file".into()),
+                    None => (47, Probe::Codec { codec: 8, bytes: vec![], size: 0 }, "padding (no data file for the target)".into()),
+                }
+            })
         }
     };
     let _ = std::fs::remove_file(&errfile);
+    let part = prefix.split('|').next().unwrap_or("?").to_string();
     fold_batch(&mut o, &prefix, &slot_names, batch);
+    let ms = wall0.elapsed().as_millis() as u64;
+    o.max("max_case_wall_ms", ms);
+    o.count(&format!("sum_case_wall_ms[{}]", match c { Case::Det { .. } => "det".to_string(), Case::DetCodec { .. } => "det-codec".to_string(), _ => part }), ms);
     o
 }
 
@@ -203,7 +374,7 @@ fn fold_batch(o: &mut CaseOut, prefix: &str, slot_names: &[String], b: forkrun::
     let mut total = 0;
     for (i, row) in b.matrix.iter().enumerate() {
         let rowsum: u64 = row.iter().sum();
-        if rowsum == 0 {
+        if rowsum == 0 || i == 47 {
             continue;
         }
         let sname = slot_names.get(i).map(String::as_str).unwrap_or("?");
@@ -212,7 +383,7 @@ fn fold_batch(o: &mut CaseOut, prefix: &str, slot_names: &[String], b: forkrun::
             if n > 0 {
                 total += n;
                 o.count(&format!("outcome[{}]", OC_NAMES[j]), n);
-                o.count(&format!("outcome_by_kind[{}|{}]", prefix.split('|').next().unwrap_or(prefix), OC_NAMES[j]), n);
+                o.count(&format!("outcome_by_part[{}|{}]", prefix.split('|').next().unwrap_or(prefix), OC_NAMES[j]), n);
                 o.fps.push(fnv1a(format!("{prefix}|{sname}|{}", OC_NAMES[j]).as_bytes()));
             }
         }
@@ -223,9 +394,11 @@ fn fold_batch(o: &mut CaseOut, prefix: &str, slot_names: &[String], b: forkrun::
     o.count("batch_process_forks", b.forks);
     o.count("allocations_observed_ge_observe_threshold", b.observed_big);
     o.count("allocations_refused_resource_limit", resource);
+    o.count("allocations_refused_growth_of_large_buffer", b.growth_refused);
     o.max("max_allocation_request_observed", b.observed_max);
     o.max("max_probe_cpu_us", b.max_probe_cpu_us);
     o.max("max_valid_case_cpu_us", b.max_valid_cpu_us);
+    o.max("max_valid_debug_call_us", b.max_valid_debug_call_us);
     for (sig, desc, wit) in b.violations {
         o.fps.push(fnv1a(sig.as_bytes()));
         o.violation_with(sig, desc, wit);
@@ -234,10 +407,7 @@ fn fold_batch(o: &mut CaseOut, prefix: &str, slot_names: &[String], b: forkrun::
         o.inconclusive.push(n);
     }
     if let Some(r) = b.resource_limited.first() {
-        if resource > 0 {
-            o.count("resource_limited_examples", 0);
-            let _ = r;
-        }
+        o.sample = Some(json!({"resource_limited_example": r}));
     }
 }
 
@@ -245,13 +415,32 @@ fn main() {
     let ctx = Ctx::from_args();
     let ctx = vcore::cases::replay_request(&ctx).map(|r| r.1).unwrap_or(ctx);
     sigs::install_hook();
+    sigs::load_known(&ctx);
+    // load the symbol tables once per process: forked batch processes inherit the cache (a panic located in a
+    // dependency is resolved through a captured backtrace)
+    let _ = std::backtrace::Backtrace::force_capture().to_string();
     if let Some(v) = ctx.param("alloc_observe_mib").and_then(|s| s.parse::<usize>().ok()) {
         alloc::OBSERVE.store(v << 20, Relaxed);
     }
     if let Some(v) = ctx.param("alloc_refuse_mib").and_then(|s| s.parse::<usize>().ok()) {
         alloc::REFUSE.store(v << 20, Relaxed);
     }
-    let mut rep = Report::new("(rule text filled in below)");
+    let mut rep = Report::new(
+        "probe = one input handed to one reader API (every corpus transcript variant with the deep accessor walk, plus Debug formatting of lazily read records), \
+         codec / integer decoder, or index query. Deterministic part (independent of VERIF_SEED): every stored witness; for every file of the fixed corpus \
+         (all 22 kinds) byte positions x {0x00,0xFF,^0x01,^0x80,+1,-1,truncate-here} on the outer bytes, on the inflated payload re-sealed into valid BGZF, and for \
+         CRAM with CRC32s re-sealed on the file as written and on its raw-block form (positions: all of them while the estimated cost of an (item, layer) stays \
+         below detbudget_s, else the first 600 bytes, +-40 around structural boundaries and a stride); the same for valid streams of every CRAM codec. Seeded part: \
+         structured field / record / token / CRAM-model mutations of the VERIF_SEED corpus, arbitrary and mutated streams into every codec decoder, constructed \
+         indexes and offset tables queried against valid files. distinct = distinct (part, kind, layer, mutation class, reader API, outcome class) cells plus \
+         distinct violation signatures; non-trivial = all. A probe that ends in a refused allocation is not an evaluation.",
+    );
+    rep.assumptions.push(format!(
+        "no expectation on Ok vs Err; a single allocation request >= {} MiB, or the growth of a buffer that already holds >= {} MiB, is refused and counted as a resource limit (inconclusive, never pass or fail: the property does not bound memory); hang = a probe that exceeds its CPU budget (ITIMER_PROF, user+system), budgets are checked against 200x the slowest valid input of the same run",
+        alloc::REFUSE.load(Relaxed) >> 20,
+        alloc::RUNAWAY_OLD.load(Relaxed) >> 20
+    ));
+    rep.assumptions.push("panics raised inside harness code by a value a noodles accessor returned (e.g. collect() on an iterator whose size_hint is absurd) are attributed to the accessor".into());
     let w = World::build(&ctx);
     if ctx.param("mode") == Some("list") {
         w.list();
@@ -263,11 +452,7 @@ fn main() {
         let layer = Layer::from_name(ctx.param("layer").unwrap_or("outer")).expect("layer");
         let pos: usize = ctx.param("pos").expect("pos=").parse().unwrap();
         let which = SUBST_NAMES.iter().position(|s| Some(*s) == ctx.param("subst")).expect("subst=");
-        let variant = match ctx.param("variant") {
-            Some("eager") => Variant::Eager,
-            Some("indexer") => Variant::Indexer,
-            _ => Variant::Primary,
-        };
+        let variant = probe::variant_from(ctx.param("variant").unwrap_or("primary"));
         let it = w.items.iter().find(|i| i.item.name == name).expect("item not in the deterministic corpus");
         let bytes = it.mutated(layer, pos, which);
         if let Some(p) = ctx.param("dump") {
@@ -276,6 +461,7 @@ fn main() {
         alloc::DIAG_PANIC.store(1, Relaxed);
         alloc::map_shared();
         let _ = std::panic::take_hook();
+        let _armed = alloc::Armed::new();
         let t = corpus::transcript_read_variant(it.item.kind, variant, &bytes[..], &it.item.side, true, corpus::DEFAULT_CAP);
         for e in t.iter().rev().take(4).rev() {
             println!("{}", &e[..e.len().min(300)]);
@@ -283,9 +469,59 @@ fn main() {
         println!("last error: {:?}", corpus::last_error_message());
         std::process::exit(0);
     }
+    if ctx.param("mode") == Some("probe") {
+        // diagnosis: a stored probe (witness / replay file) in-process without the panic guard
+        let v = vcore::report::read_json(std::path::Path::new(ctx.param("file").expect("file=")));
+        let pj = if v["probe"].is_object() { &v["probe"] } else if v["witness"]["probe"].is_object() { &v["witness"]["probe"] } else { &v };
+        let p = Probe::from_json(pj).expect("probe json");
+        println!("{}", p.describe());
+        if ctx.param("catch").is_some() {
+            match p.run(&w) {
+                Ok(oc) => println!("outcome: {}", OC_NAMES[oc]),
+                Err(pi) => println!("panic:{}", sigs::site_sig(&pi)),
+            }
+        } else {
+            alloc::DIAG_PANIC.store(1, Relaxed);
+            alloc::map_shared();
+            let _ = std::panic::take_hook();
+            let r = p.run(&w);
+            println!("outcome: {:?}", r.map(|oc| OC_NAMES[oc]).map_err(|p| p.sig));
+        }
+        std::process::exit(0);
+    }
     let cases = gen_cases(&ctx, &w);
     let f = |i: u64| -> CaseOut { run_case(&ctx, &w, i, &cases[i as usize]) };
-    run_cases(&ctx, &mut rep, cases.len() as u64, 600.0, &f, &|i| case_json(&w, &cases[i as usize]));
+    run_cases(&ctx, &mut rep, cases.len() as u64, 900.0, &f, &|i| case_json(&w, &cases[i as usize]));
     rep.extra.insert("cases".into(), json!(cases.len()));
+    rep.extra.insert("deterministic_corpus_items".into(), json!(w.items.len()));
+    rep.extra.insert("stored_witnesses".into(), json!(w.witnesses.len()));
+    let budget = ctx.param("cpu_budget_s").and_then(|s| s.parse().ok()).unwrap_or(if ctx.quick() { 20.0 } else { 60.0 });
+    let max_valid_ms = rep.counters.get("max_valid_case_cpu_us").copied().unwrap_or(0) as f64 / 1000.0;
+    let max_dbg_ms = rep.counters.get("max_valid_debug_call_us").copied().unwrap_or(0) as f64 / 1000.0;
+    rep.extra.insert("max_valid_case_cpu_ms".into(), json!(max_valid_ms));
+    rep.extra.insert("cpu_budget_per_probe_s".into(), json!(budget));
+    rep.extra.insert("cpu_budget_over_slowest_valid_case".into(), json!(if max_valid_ms > 0.0 { budget * 1000.0 / max_valid_ms } else { 0.0 }));
+    rep.extra.insert("max_valid_debug_call_ms".into(), json!(max_dbg_ms));
+    rep.extra.insert("debug_call_budget_s".into(), json!(w.debug_budget_s));
+    if ctx.replay.is_none() {
+        if max_valid_ms > 0.0 && budget * 1000.0 < 200.0 * max_valid_ms {
+            rep.floors_unmet.push(format!("CPU budget {budget} s is less than 200x the slowest valid case ({max_valid_ms:.1} ms)"));
+        }
+        if max_dbg_ms > 0.0 && w.debug_budget_s * 1000.0 < 200.0 * max_dbg_ms {
+            rep.floors_unmet.push(format!("Debug-call budget {} s is less than 200x the slowest valid Debug call ({max_dbg_ms:.2} ms)", w.debug_budget_s));
+        }
+        if ctx.param("only").is_none() && ctx.param("nodet").is_none() {
+            rep.floor("evaluations", rep.evaluations, 100_000);
+            rep.floor("valid items read to END", rep.counters.get("outcome_by_part[valid|end]").copied().unwrap_or(0), w.items.len() as u64);
+        }
+        let refused = rep.counters.get("allocations_refused_resource_limit").copied().unwrap_or(0);
+        if refused > 0 {
+            rep.inconclusive.push(format!(
+                "{refused} probes ended in a refused allocation (single request >= {} MiB, growth of a buffer >= {} MiB, or RLIMIT_AS): resource limit, not counted as evaluations",
+                alloc::REFUSE.load(Relaxed) >> 20,
+                alloc::RUNAWAY_OLD.load(Relaxed) >> 20
+            ));
+        }
+    }
     rep.finish(&ctx);
 }
